@@ -191,6 +191,19 @@ fn send_form(case: &Case, prev_boundary: &str) -> Result<(Sent, Vec<Part>), Outc
         return Err(Outcome::fail("C15:send-failed", format!("{e:?}")));
     }
     let written = net.lock().unwrap().dials[0].1.lock().unwrap().written.clone();
+    // the same prepared request sent again must put the same form on the wire (bodies are documented as rewindable)
+    {
+        let (_g2, net2) = serve_scripts(vec![ok_response()]);
+        if let Err(e) = prepared.send() {
+            return Err(Outcome::fail("C15:second-send-failed", format!("{e:?}")));
+        }
+        let again = net2.lock().unwrap().dials[0].1.lock().unwrap().written.clone();
+        if again != written {
+            let a = parse_single(&again).map(|r| r.body).unwrap_or_default();
+            let b = parse_single(&written).map(|r| r.body).unwrap_or_default();
+            return Err(Outcome::fail("C15:second-send-differs", format!("sending the same prepared request again produced a different request: bodies {}", crate::client::first_diff(&a, &b))));
+        }
+    }
     let req = match parse_single(&written) {
         Ok(r) => r,
         Err(e) => return Err(Outcome::fail("C15:malformed-request", e)),
